@@ -216,8 +216,10 @@ int fileClose(int fd) {
   auto it = tb.m.find(fd);
   if (it == tb.m.end()) { errno = EBADF; return -1; }
   File* f = it->second; tb.m.erase(it);
-  // like the kernel: closing a descriptor removes it from every epoll interest list
-  for (File* e : allFiles) if (e->kind == FK_EPOLL && e->refs > 0) e->interest.erase(fd);
+  // like the kernel: a registration belongs to the open file description; it disappears when the LAST descriptor for that description is closed
+  // (a duplicate - dup(), a forked child - keeps it alive, and its events keep being reported although the registered number is gone)
+  if (f->refs <= 1) { for (File* e : allFiles) if (e->kind == FK_EPOLL && e->refs > 0) for (auto i2 = e->interest.begin(); i2 != e->interest.end();) { if (i2->second.file == f) i2 = e->interest.erase(i2); else ++i2; } }
+  else probe("descriptor_closed_registration_survives");
   logEvent("close", f->id);
   unrefFile(f);
   return 0;
@@ -361,9 +363,11 @@ int __wrap_epoll_ctl(int epfd, int op, int fd, struct epoll_event* ev) {
   File* f = lookup(fd);
   if (!f) { errno = EBADF; logEvent("epoll_ctl_ebadf", op, fd); return -1; }
   auto it = e->interest.find(fd);
+  if (it != e->interest.end() && it->second.file != f) {   /* the number was registered for another description that is still alive through a duplicate: the kernel keys by (description, number) */
+    static int staleKey = -1; File::Interest old = it->second; e->interest.erase(it); e->interest[staleKey--] = old; it = e->interest.end(); }
   switch (op) {
-  case EPOLL_CTL_ADD: if (it != e->interest.end()) { errno = EEXIST; return -1; } { File* tf = lookup(fd); e->interest[fd] = File::Interest{ev->events, ev->data.u64, tf ? tf->inEdge - 1 : 0, tf ? tf->outEdge - 1 : 0}; } break;   /* registration and modification report a ready kind once, like the kernel */
-  case EPOLL_CTL_MOD: if (it == e->interest.end()) { errno = ENOENT; return -1; } { File* tf = lookup(fd); it->second = File::Interest{ev->events, ev->data.u64, tf ? tf->inEdge - 1 : 0, tf ? tf->outEdge - 1 : 0}; } break;
+  case EPOLL_CTL_ADD: if (it != e->interest.end()) { errno = EEXIST; return -1; } { File* tf = lookup(fd); e->interest[fd] = File::Interest{ev->events, ev->data.u64, tf ? tf->inEdge - 1 : 0, tf ? tf->outEdge - 1 : 0, tf}; } break;   /* registration and modification report a ready kind once, like the kernel */
+  case EPOLL_CTL_MOD: if (it == e->interest.end()) { errno = ENOENT; return -1; } { File* tf = lookup(fd); it->second = File::Interest{ev->events, ev->data.u64, tf ? tf->inEdge - 1 : 0, tf ? tf->outEdge - 1 : 0, tf}; } break;
   case EPOLL_CTL_DEL: if (it == e->interest.end()) { errno = ENOENT; return -1; } e->interest.erase(it); break;
   default: errno = EINVAL; return -1;
   }
@@ -381,7 +385,7 @@ int __wrap_epoll_wait(int epfd, struct epoll_event* out, int maxev, int timeout)
     pump();
     std::vector<epoll_event> ready; std::vector<int> readyFd;
     for (auto& kv : e->interest) {
-      File* f = lookup(kv.first); if (!f) continue;
+      File* f = kv.second.file; if (!f || f->refs <= 0) continue;
       uint32_t r = readiness(f, kv.second.events);
       if (r && (kv.second.events & EPOLLET) && f->inEdge == kv.second.seenIn && f->outEdge == kv.second.seenOut) r = 0;   /* edge-triggered: reported only when something happened to the file since its last report - and then with its whole current ready mask, like the kernel */
       if (r) { epoll_event ev; ev.events = r; ev.data.u64 = kv.second.data; ready.push_back(ev); readyFd.push_back(kv.first); }
@@ -398,7 +402,7 @@ int __wrap_epoll_wait(int epfd, struct epoll_event* out, int maxev, int timeout)
       }
       int n = std::min((int)ready.size(), maxev);
       for (int i = 0; i < n; ++i) out[i] = ready[i];
-      for (int i = 0; i < n; ++i) for (auto& kv : e->interest) if ((kv.second.events & EPOLLET) && kv.second.data == ready[i].data.u64) { File* f = lookup(kv.first); if (!f) continue; kv.second.seenIn = f->inEdge; kv.second.seenOut = f->outEdge; }
+      for (int i = 0; i < n; ++i) for (auto& kv : e->interest) if ((kv.second.events & EPOLLET) && kv.second.data == ready[i].data.u64) { File* f = kv.second.file; if (!f) continue; kv.second.seenIn = f->inEdge; kv.second.seenOut = f->outEdge; }
       logEvent("epoll_wait", n, (int64_t)ready[0].data.u64 != 0);
       return n;
     }
